@@ -866,7 +866,9 @@ def session_cases(ctx):
             fsb = [rand_sym(pls[pi], listing=True) for _ in range(rng.choice((0, 0, 0, 1, 2)))]
             ops.append(dict(bucket=b, store=rng.randrange(3), state=state[b], payload=pi, fs=fs, fsb=fsb))
         cases.append(dict(kind='session', cfg=cfgs[0], cfgs=cfgs, ops=ops))
-    return cases
+    # histories over several store objects first: a cache that outlives its store object (class / module level) makes
+    # every LATER case of the same process start dirty; the first reports should be histories that fail on their own
+    return [c for c in cases if 'cfgs' in c] + [c for c in cases if 'cfgs' not in c]
 
 
 # ---------------------------------------------------------------------------------------------------
